@@ -6,7 +6,7 @@ from bibtexparser.middlewares import AddEnclosingMiddleware, RemoveEnclosingMidd
 from bibtexparser.model import Entry, Field, String
 from bibtexparser.splitter import Splitter
 
-from .. import bibgen, harness, tokens
+from .. import bibgen, harness, libgen, tokens
 
 PROP = "C10"
 MODNAME = __name__
@@ -87,7 +87,7 @@ def o_strip_reuse(inp):
     cls = value_classes(v) + [kind] + (["key-with-upper-case"] if key != key.lower() else [])
     nontrivial = any(c.startswith("enclosed:{") or c.startswith('enclosed:"') or c in ("nested", "concatenation", "empty", "single-char") for c in cls)
     lib = _lib(v, kind, key)
-    rem = RemoveEnclosingMiddleware(allow_inplace_modification=inp["inplace"]).transform(lib)
+    rem = libgen.maybe_preuse(RemoveEnclosingMiddleware(allow_inplace_modification=inp["inplace"]), v).transform(lib)
     want, wkind = strip1(v)
     got = _get(rem, kind, key)
     if got != want:
@@ -105,7 +105,7 @@ def o_strip_reuse(inp):
         if not r:
             continue
         add = AddEnclosingMiddleware(reuse_previous_enclosing=True, enclose_integers=e, default_enclosing=d, allow_inplace_modification=False)
-        back = add.transform(rem)
+        back = libgen.maybe_preuse(add, (v, d, e)).transform(rem)
         if _get(back, kind, key) != v.strip():
             return (("reuse:not-restored", f"{key} = {v!r} -> {got!r} -> {_get(back, kind, key)!r} (default {d!r}, enclose_integers={e})", repr(v.strip())), nontrivial, cls)
     return (None, nontrivial, cls)
@@ -143,7 +143,7 @@ def o_intrule(inp):
     v, key = inp["value"], inp["key"]
     add = AddEnclosingMiddleware(reuse_previous_enclosing=inp["reuse"], enclose_integers=inp["enclose_integers"], default_enclosing=inp["default"],
                                  allow_inplace_modification=inp["inplace"])
-    out = add.transform(_lib(v, "field", key))
+    out = libgen.maybe_preuse(add, (repr(v), key)).transform(_lib(v, "field", key))
     got = _get(out, "field", key)
     d = inp["default"]
     is_int = isinstance(v, int) or (isinstance(v, str) and v.isascii() and v.isdigit())
